@@ -154,6 +154,14 @@ def _loop (ctx, repo, f, L):
       if ps_ and len(ps_) < 400:
         cnts = [sum(1 for x_ in p_ if x_ in advn) for p_, e_ in ps_]
         if min(cnts) >= 1: ivx = (min(cnts), max(cnts))
+    if iv == (1, 1) and ivx is not None and ivx[0] >= 1 and ivx[1] > 1:
+      # ... and not twice: a consume added to the handler of a delivery whose message was already consumed drops the next message's bytes
+      advn = [a[0] for a in L.advance]
+      ps_ = q.paths_under(repo, mod, g, q.Env(), n, [L.head], f.cls, limit=400, track_start=True, exc=True)
+      twice = [p_ for p_, e_ in ps_ if sum(1 for x_ in p_ if x_ in advn) > 1] if ps_ and len(ps_) < 400 else []
+      ctx.ob('R-EFFECT', f, "the cursor advances once per decoded message also when the delivery raises", not twice, "no path with two advances" if not twice else
+             "a path from the decode through an `except` clause back to the loop head advances the cursor twice (lines %s): when the message handler raises, the declared length of the failed message is consumed a second time - "
+             "the bytes of the next message are dropped (or mis-framed, or the buffer underruns), so what is delivered depends on what happened to be buffered" % sorted(set(x_.line for x_ in twice[0] if x_ in advn)), (mod, c), 'D4')
     if iv == (1, 1) and ivx is not None:
       ctx.ob('R-EFFECT', f, "the cursor has advanced also on the paths through an exception handler back to the loop head", ivx[0] >= 1,
              "advance count including handler paths: %s" % (ivx,) if ivx[0] >= 1 else
